@@ -560,17 +560,23 @@ class CParser:
             return decl, False
 
         if name_type == "TYPEID":
-            if typeid_paren_as_abstract:
-                decl = self._parse_typeid_noparen_declarator()
-            else:
-                decl = self._parse_typeid_declarator()
+            # A TYPEID that follows a pointer inside parentheses, as in
+            # 'int (*TT)(void)', can only be the declared name.
+            decl = self._parse_typeid_declarator()
         else:
             decl = self._parse_id_declarator()
         return decl, True
 
-    def _scan_declarator_name_info(self) -> Tuple[Optional[str], bool]:
+    def _scan_declarator_name_info(
+        self, in_paren: bool = False
+    ) -> Tuple[Optional[str], bool]:
+        # Returns the type of the name token (None if there is no name) and
+        # whether the name directly follows an opening parenthesis, with no
+        # pointer in between: only then can a TYPEID start a parameter list.
         saw_paren = False
+        saw_pointer = False
         while self._accept("TIMES"):
+            saw_pointer = True
             while self._peek_type() in _TYPE_QUALIFIER:
                 self._advance()
 
@@ -579,12 +585,11 @@ class CParser:
             return None, saw_paren
         if tok.type in {"ID", "TYPEID"}:
             self._advance()
-            return tok.type, saw_paren
+            return tok.type, in_paren and not saw_pointer
         if tok.type == "LPAREN":
-            saw_paren = True
             self._advance()
-            tok_type, nested_paren = self._scan_declarator_name_info()
-            if nested_paren:
+            tok_type, saw_paren = self._scan_declarator_name_info(in_paren=True)
+            if tok_type is None:
                 saw_paren = True
             depth = 1
             while True:
